@@ -7,6 +7,7 @@ from . import c07
 import propka.vector_algebra
 
 ID = 'C04'
+HORIZON_S = 1800   # one case = one input under all its transformations
 LEVEL = 'exploration'
 LEVEL_TEXT = ('Every input of the corpus (docked pairs incl. ligands and ions, clusters, cut-outs, windows, and fragments flattened '
               'into a coordinate plane so that every exact-zero shortcut of the hydrogen builder is hit) is moved by every one of the '
